@@ -24,6 +24,9 @@ R02d every interpreter command completes: in visit_InterpreterCommandNode every 
      tracking.mark_completed(node) (an early `return`, e.g. for a Wait shorter than a tick, leaves the line Started for ever
      although the next line starts).
 Decides these shapes; exactly-once and ordering over all nestings and timings are runtime matters.
+R02e a macro invocation belongs to one caller (opstatic/macrocall.py): the continue branch of visit_CallMacroNode is reachable only for the
+     Call macro node that started the invocation in progress; every other caller waits and then makes its own invocation - otherwise two
+     walkers share the body's nodes and child_index and the lines of one invocation start out of order, twice, or not at all.
 """
 from __future__ import annotations
 
@@ -282,3 +285,7 @@ def run(ctx) -> None:
         ctx.fail("R02d", vicf, [n for n in p_ if n.kind == "stmt"][-1].ast if any(n.kind == "stmt" for n in p_) else vicf.node, inst,
                  "a path leaves the visitor without completing the instruction: the line stays Started in the run log and in the "
                  "method state for the rest of the run while the next line starts", p_)
+    # ---- R02e
+    ctx.rule("R02e", "a macro invocation in progress is continued only by the caller that started it")
+    from ..macrocall import check as _macro_owner
+    _macro_owner(ctx, "R02e")
